@@ -22,7 +22,7 @@ theorem v2_safe_spelled (cfg : Config) (s : St) (h : safe cfg s = true) :
     ∧ (∀ w ∈ s.ws, w.canc = true → w.granted = false ∧ w.outcome ≠ 1)
     -- set_done with the lock granted happens only when a stop request was pending between the
     -- hand-off and the delivery of the re-scheduled completion (`hazard`)
-    ∧ (∀ w ∈ s.ws, w.granted = true → w.outcome = 2 → w.hazard = true)
+    ∧ (∀ w ∈ s.ws, w.granted = true → w.outcome = 2 → cfg.fwdStop = true ∧ w.hazard = true)
     -- resume_'s "popped but already completed" branch is never taken
     ∧ s.deadBranch = 0
     -- FIFO: queued waiters get set_value in push_back order (cancelled ones removed)
@@ -35,7 +35,7 @@ theorem v2_safe_spelled (cfg : Config) (s : St) (h : safe cfg s = true) :
     ∧ (final cfg s = true → noHazard s = true →
         (∀ w ∈ s.ws, startedW w = true → w.comps = 1) ∧ s.queue = [] ∧ s.schedQ = [] ∧
         (s.locked = true → s.holders = 1)) := by
-  unfold safe at h
+  unfold safe endOk at h
   simp only [Bool.and_eq_true, decide_eq_true_eq, List.all_eq_true, Bool.or_eq_true,
     Bool.not_eq_eq_eq_not, Bool.not_true, ne_eq, List.isEmpty_iff, Bool.and_eq_false_imp] at h
   obtain ⟨⟨⟨⟨⟨⟨⟨h1, h2⟩, h3⟩, h4⟩, h5⟩, h6⟩, h7⟩, h8⟩ := h
@@ -72,6 +72,10 @@ theorem v2_handoff_safe : ∀ s, Reach (sys cfgHandoff) s → (safe cfgHandoff s
 
 theorem v2_leak_seq_safe_partial : ∀ s, Reach (sys cfgLeakSeq) s → safe cfgLeakSeq s = true :=
   safe_of_check _ { coded with M := 71, W := 264 } 400 _ (by decide +kernel)
+
+/-- hand-off (inline scheduler) while another thread probes with try_lock: full property -/
+theorem v2_handoff_try_safe : ∀ s, Reach (sys cfgHandoffTry) s → (safe cfgHandoffTry s && noHazard s) = true :=
+  safe_of_check _ { coded with M := 157, W := 192 } 400 _ (by decide +kernel)
 
 /-- `lock not leaked` is FALSE for the code as it stands: in the sequential reproducer EVERY
     execution that runs to the end leaks the lock (DESIGN §8 #3). -/
